@@ -54,6 +54,8 @@ var c14Callables = []c14Callable{
 	// pf: a jet.Func that reads its arguments with ParseInto; lz: a jet.Func that hands back a Renderer which
 	// reads the arguments only when it is rendered (last stage only)
 	{"pf", "SI"}, {"lz", "SS"},
+	// uf: like jf, but stored as a plain func(jet.Arguments) reflect.Value (VarMap.Set), not as a jet.Func
+	{"uf", "SSI"},
 }
 
 type c14Methods struct {
@@ -94,6 +96,17 @@ func c14Vars(log *[]string, jfName string) jet.VarMap {
 		return reflect.ValueOf(r.note("jf", args...))
 	})
 	vars.Set("rf", func(args ...interface{}) string { return r.note("jf", args...) })
+	vars.Set("uf", func(a jet.Arguments) reflect.Value {
+		var args []interface{}
+		for i := 0; i < a.NumOfArguments(); i++ {
+			if v := a.Get(i); v.IsValid() {
+				args = append(args, v.Interface())
+			} else {
+				args = append(args, nil)
+			}
+		}
+		return reflect.ValueOf(r.note("uf", args...))
+	})
 	vars.SetFunc("pf", func(a jet.Arguments) reflect.Value {
 		var s string
 		var n int
@@ -183,6 +196,9 @@ func genC14(t *rapid.T) c14Case {
 			`{{ f1() }}`, `{{ f2("a") }}`, `{{ "a" | f2 }}`, `{{ f3("a", "b", "c", "d") }}`, `{{ "a" | f1: "b" }}`, `{{ pobj.PJoin("a") }}`,
 			`{{ f1(nothing) }}`, `{{ nilv | f1 }}`, `{{ f2("a", nilv) }}`, `{{ fv("a", nilv) }}`, `{{ f2("a", "b") }}`, `{{ g2("a", "b") }}`, `{{ fv("a", 1, "x") }}`,
 			`{{ f2("a", _) }}`, `{{ "a" | f3(_, _, "c") }}`,
+			// built-ins handed values of the wrong kind (also where treating them as 0 would give a valid range)
+			`{{ range ints("2", 5) }}x{{ end }}`, `{{ range ints(-2, "x") }}x{{ end }}`, `{{ range ints(true, 3) }}x{{ end }}`, `{{ range "1" | ints: 4 }}x{{ end }}`, `{{ range ints(sv, iv) }}x{{ end }}`,
+			`{{ repeat("a", "3") }}`, `{{ replace("a", "b") }}`, `{{ len(iv) }}`, `{{ hasPrefix("a") }}`, `{{ lower(1.5) }}`,
 		}).Draw(t, "misuse")
 		return c14Case{Kind: "misuse", Tpl: tpl, Expr: tpl}
 	}
@@ -354,7 +370,7 @@ func (c c14Case) apply() (string, []string) {
 			cur = m.Join(args[0].(string), args[1].(string))
 		case "pobj.PJoin":
 			cur = m.PJoin(args[0].(string), args[1].(int))
-		case "jf":
+		case "jf", "uf":
 			// a jet.Func sees the values unconverted: numeric literals stay float64
 			var raw []interface{}
 			k := 0
@@ -378,7 +394,7 @@ func (c c14Case) apply() (string, []string) {
 				}
 				k++
 			}
-			cur = r.note("jf", raw...)
+			cur = r.note(c14Callables[st.Fn].name, raw...)
 		}
 	}
 	return cur, log
